@@ -119,4 +119,185 @@ def toksOrder3 (d : Gen.D) (ch : Expr → Bool) : Option (List OrderItem) → Li
 end
 def W3 (d : Gen.D) (ch : Expr → Bool) (e : Expr) (k : Nat) : List Tok := wrapT (ch e) e k (toksE3 d ch e)
 
+
+/-! ### continuations -/
+def Bd3 (d : Gen.D) (k : Nat) (rest : List Tok) : Bool := Bd d k rest && !headIsOver rest
+/-- nothing of a query follows: nothing of a SELECT, and no set operator -/
+def stopsQ (d : Gen.D) (rest : List Tok) : Bool := Bd3 d 7 rest && !setOpHead rest
+
+/-! ### the fragment -/
+def isOkPair (r : Except Err (Option String × String)) (s : Option String) (n : String) : Bool :=
+  match r with | .ok (a, b) => a == s && b == n | _ => false
+/-- a table name, optionally schema-qualified: its ONE back-quoted token is read back as that (schema, name) -/
+def tblOK (s : Option String) (n : String) : Bool :=
+  (tblTok s n).has NAME && !(tblTok s n).has PAREN && (tblTok s n).children.isEmpty && isOkPair (splitName (tblTok s n).src) s n &&
+    Gen.joinTypes.all (fun e => e.2.all (fun k => !(tblTok s n).equalsStr k))
+/-- a set operator of the regenerated table whose words are found again as that operator; its first word ends the SELECT before it -/
+def unionTyOK (d : Gen.D) (ty : String) : Bool :=
+  (match firstEnumA Gen.unionTypes (unionWords ty) with | some (n, k) => n == ty && k == (unionWords ty).length | none => false) &&
+    (match unionWords ty with | t :: _ => bdTok d 7 t && setOpHead [t] && !t.srcEqUp "OVER" | [] => false)
+
+mutual
+def FragE3 (d : Gen.D) : Expr → Bool
+  | .column none c => colOK d c
+  | .column (some t) c => qcolOK d t c
+  | .literal v => litOK d v
+  | .wildcard none => true
+  | .wildcard (some t) => wildOK d t
+  | .func s n ps => fnOK d s n && FragL3 d ps
+  | .agg n ps _ => aggOK d n && FragL3 d ps
+  | .caseCond cs els => FragA3 d cs && FragO3 d els && !cs.isEmpty
+  | .caseVal v cs els => FragE3 d v && FragA3 d cs && FragO3 d els && !cs.isEmpty
+  | .subQuery q => FragQ d q
+  | .exists_ v => isSubQ d v
+  | .unary o e => unOK d o && FragE3 d e
+  | .compute l o r => binOK d o && FragE3 d l && FragE3 d r
+  | .kw k _ l r => FragE3 d l && (if k == .in_ then inRhs3 d r else FragE3 d r)
+  | .between _ b f t => FragE3 d b && FragE3 d f && FragE3 d t
+  | .compare o l r => cmpOK d o && FragE3 d l && FragE3 d r
+  | .not_ e => FragE3 d e
+  | .and_ l r => FragE3 d l && FragE3 d r
+  | .xor l r => FragE3 d l && FragE3 d r
+  | .or_ l r => FragE3 d l && FragE3 d r
+  | _ => false
+def FragL3 (d : Gen.D) : List Expr → Bool
+  | [] => true
+  | a :: as => FragE3 d a && FragL3 d as
+def FragA3 (d : Gen.D) : List (Expr × Expr) → Bool
+  | [] => true
+  | (w, t) :: r => FragE3 d w && FragE3 d t && FragA3 d r
+def FragO3 (d : Gen.D) : Option Expr → Bool
+  | none => true
+  | some y => FragE3 d y
+/-- the right side of `IN`: a non-empty list of short values, or a sub-query -/
+def inRhs3 (d : Gen.D) : Expr → Bool
+  | .subValue vs => FragL3 d vs && !vs.isEmpty && shortL vs
+  | .subQuery q => FragQ d q
+  | _ => false
+def isSubQ (d : Gen.D) : Expr → Bool
+  | .subQuery q => FragQ d q
+  | _ => false
+def FragQ (d : Gen.D) : Query → Bool
+  | .single s => FragS3 d s
+  | .union ws s us => (match ws with | some [] => true | _ => false) && FragS3 d s && FragUn d us && !us.isEmpty
+def FragUn (d : Gen.D) : List (String × Select) → Bool
+  | [] => true
+  | (t, s) :: r => unionTyOK d t && FragS3 d s && FragUn d r
+def FragS3 (d : Gen.D) : Select → Bool
+  | .mk (some []) _ cols fr [] js wh gb hv ob none none none lm =>
+      colsOK3 d cols && !cols.isEmpty && fromOK3 d fr && joinsOK3 d js && FragO3 d wh && groupOK3 d gb && FragO3 d hv && orderOK3 d ob &&
+        limitOK lm
+  | _ => false
+def colsOK3 (d : Gen.D) : List (Expr × Option String) → Bool
+  | [] => true
+  | (e, a) :: cs => FragE3 d e && optAliasOK a && colsOK3 d cs
+def refOK3 (d : Gen.D) : TableRef → Bool
+  | .table s n => tblOK s n
+  | .sub q => FragQ d q
+def tableOK3 (d : Gen.D) : FromTable → Bool
+  | .mk r a => refOK3 d r && optAliasOK a
+def tablesOK3 (d : Gen.D) : List FromTable → Bool
+  | [] => true
+  | t :: ts => tableOK3 d t && tablesOK3 d ts
+def fromOK3 (d : Gen.D) : Option (List FromTable) → Bool
+  | none => true
+  | some (t :: ts) => tableOK3 d t && tablesOK3 d ts
+  | some [] => false
+def ruleOK3 (d : Gen.D) : Option JoinRule → Bool
+  | none => true
+  | some (.on e) => FragE3 d e
+  | some (.using _) => false
+def joinOK3 (d : Gen.D) : Join → Bool
+  | .mk ty t rule => joinTyOK d ty && tableOK3 d t && ruleOK3 d rule
+def joinsOK3 (d : Gen.D) : List Join → Bool
+  | [] => true
+  | j :: js => joinOK3 d j && joinsOK3 d js
+def groupOK3 (d : Gen.D) : Option GroupBy → Bool
+  | none => true
+  | some (.mk (e :: es) none false false) => FragE3 d e && FragL3 d es && !searchStrUp (W3 d noX e 8) "GROUPING"
+  | _ => false
+def ordItemOK3 (d : Gen.D) : OrderItem → Bool
+  | .mk e _ nf nl => FragE3 d e && !nf && !nl
+def ordTailOK3 (d : Gen.D) : List OrderItem → Bool
+  | [] => true
+  | o :: os => ordItemOK3 d o && ordTailOK3 d os
+def orderOK3 (d : Gen.D) : Option (List OrderItem) → Bool
+  | none => true
+  | some (o :: os) => ordItemOK3 d o && ordTailOK3 d os
+  | some [] => false
+end
+
+/-! ### the common size -/
+mutual
+def szE3 : Expr → Nat
+  | .func _ _ ps => szL3 ps + 1
+  | .agg _ ps _ => szL3 ps + 1
+  | .caseCond cs els => szA3 cs + szO3 els + 1
+  | .caseVal v cs els => szE3 v + szA3 cs + szO3 els + 1
+  | .subValue vs => szL3 vs + 1
+  | .subQuery q => szQ q + 1
+  | .exists_ v => szE3 v + 1
+  | .unary _ e => szE3 e + 1
+  | .compute l _ r => szE3 l + szE3 r + 1
+  | .kw _ _ l r => szE3 l + szE3 r + 1
+  | .between _ b f t => szE3 b + szE3 f + szE3 t + 1
+  | .compare _ l r => szE3 l + szE3 r + 1
+  | .not_ e => szE3 e + 1
+  | .and_ l r => szE3 l + szE3 r + 1
+  | .xor l r => szE3 l + szE3 r + 1
+  | .or_ l r => szE3 l + szE3 r + 1
+  | _ => 1
+def szL3 : List Expr → Nat
+  | [] => 0
+  | a :: as => szE3 a + szL3 as
+def szA3 : List (Expr × Expr) → Nat
+  | [] => 0
+  | (w, t) :: r => szE3 w + szE3 t + szA3 r
+def szO3 : Option Expr → Nat
+  | none => 0
+  | some y => szE3 y
+def szQ : Query → Nat
+  | .single s => szS3 s + 1
+  | .union _ s us => szS3 s + szUn us + 1
+def szUn : List (String × Select) → Nat
+  | [] => 0
+  | (_, s) :: r => szS3 s + szUn r + 1
+def szS3 : Select → Nat
+  | .mk _ _ cols fr _ js wh gb hv ob _ _ _ _ => szCols cols + szFrom fr + szJoins js + szO3 wh + szGroup gb + szO3 hv + szOrder ob + 1
+def szCols : List (Expr × Option String) → Nat
+  | [] => 0
+  | (e, _) :: cs => szE3 e + szCols cs
+def szRef : TableRef → Nat
+  | .table _ _ => 1
+  | .sub q => szQ q + 1
+def szTable : FromTable → Nat
+  | .mk r _ => szRef r
+def szTables : List FromTable → Nat
+  | [] => 0
+  | t :: ts => szTable t + szTables ts
+def szFrom : Option (List FromTable) → Nat
+  | none => 0
+  | some ts => szTables ts
+def szRule : Option JoinRule → Nat
+  | some (.on e) => szE3 e
+  | _ => 0
+def szJoin : Join → Nat
+  | .mk _ t rule => szTable t + szRule rule
+def szJoins : List Join → Nat
+  | [] => 0
+  | j :: js => szJoin j + szJoins js
+def szGroup : Option GroupBy → Nat
+  | some (.mk es _ _ _) => szL3 es
+  | none => 0
+def szOrdItem : OrderItem → Nat
+  | .mk e _ _ _ => szE3 e
+def szOrdL : List OrderItem → Nat
+  | [] => 0
+  | o :: os => szOrdItem o + szOrdL os
+def szOrder : Option (List OrderItem) → Nat
+  | none => 0
+  | some os => szOrdL os
+end
+theorem szE3_pos (e : Expr) : 1 ≤ szE3 e := by cases e <;> simp [szE3] <;> omega
+
 end TQ
